@@ -64,7 +64,41 @@ def gen(path):
     print(json.dumps({"runs": runs}))
 
 
+NAMES = {"1": "Customer", "2": "Invoice", "3": "Shipment", "4": "Order"}
+
+
+def graph_xsd(g) -> str:
+    """A dependency graph of Order.tla as a schema: one complex type per class, one optional element per edge."""
+    out = ['<xs:schema xmlns:xs="http://www.w3.org/2001/XMLSchema" xmlns="urn:g" targetNamespace="urn:g" elementFormDefault="qualified">']
+    for k in sorted(g["edges"]):
+        out.append(f'<xs:complexType name="{NAMES[k]}"><xs:sequence>')
+        for n in g["edges"][k]:
+            out.append(f'<xs:element name="{NAMES[str(n)].lower()}" type="{NAMES[str(n)]}" minOccurs="0"/>')
+        out.append(f'<xs:element name="v" type="xs:string" minOccurs="0"/></xs:sequence></xs:complexType>')
+    out.append('<xs:element name="doc" type="Order"/></xs:schema>' if "4" in g["edges"] else '<xs:element name="doc" type="Customer"/></xs:schema>')
+    return "".join(out)
+
+
+def graphgen(path):
+    """Whole generations, one per TLC graph, with a cluster structure style; sha256 of every file."""
+    from xsdata.models.config import StructureStyle
+
+    from . import codegen_run as cg
+
+    spec = json.load(open(path))
+    res = []
+    for i, g in enumerate(spec["graphs"]):
+        style = StructureStyle(spec["styles"][i % len(spec["styles"])])
+        gen_ = cg.generate({"g.xsd": graph_xsd(g)}, ["g.xsd"], options={"structure_style": style}, pkg=f"xvc12g{i}")
+        if gen_.error is not None:
+            res.append({"error": f"{type(gen_.error).__name__}: {gen_.error}"})
+        else:
+            res.append({k: hashlib.sha256(v.encode()).hexdigest() for k, v in sorted(gen_.files.items())})
+        gen_.cleanup()
+    print(json.dumps({"runs": res}))
+
+
 if __name__ == "__main__":
-    {"graphs": graphs, "gen": gen}[sys.argv[1]](sys.argv[2])
+    {"graphs": graphs, "gen": gen, "graphgen": graphgen}[sys.argv[1]](sys.argv[2])
     sys.stdout.flush()
     os._exit(0)
